@@ -299,11 +299,11 @@ def plan(tier, seed):
     rng = random.Random('c17-plan-%d' % seed)
     cases = []
     hexes = [None, '0', '0x08000000', '0x20000000', '134217728']
-    n = 120 if tier == 'quick' else 2000
+    n = 120 if tier == 'quick' else 12000
     for i in range(n):
         cases.append({'what': 'success', 'seed': seed, 'idx': i, 'compress': bool(i & 1), 'ninc': i % 3, 'explicit_o': (i // 2) % 2 == 0, 'labels': (i // 3) % 2 == 0,
                       'hex': hexes[i % len(hexes)], 'defs': i % 7 == 0, 'big': i % 4 == 1})
-    reps = 1 if tier == 'quick' else 6
+    reps = 1 if tier == 'quick' else 24
     for rep in range(reps):
         for fault in list(NATURAL) + ['bad_hex_offset', 'missing_input', 'bad_include_dir', 'out_missing_dir', 'out_is_dir', 'labels_missing_dir', 'hex_is_dir']:
             for compress in (False, True):
@@ -314,7 +314,7 @@ def plan(tier, seed):
                 for compress in ([True] if f == 'transform_compressible' else [False, True]):
                     cases.append({'what': 'failure', 'fault': 'inject:' + f, 'compress': compress, 'present': True, 'kind2': kind2, 'rep': rep})
     rng.shuffle(cases)
-    nsh = 48 if tier == 'quick' else 256
+    nsh = 48 if tier == 'quick' else 1024
     shards = [{'cases': cases[i::nsh]} for i in range(nsh)]
     return {'shards': shards, 'budget_s': 400 if tier == 'quick' else 3000, 'extra_cov': {'cli_runs_planned': len(cases)}, 'exhaustive': True}
 
